@@ -217,7 +217,8 @@ CreateAsIs(a) ==
 
 DeleteOutcomes(a) ==
   LET n == Norm(a) IN
-  IF n = Inbox \/ n \notin DOMAIN mbx THEN {No({})}
+  IF n = Inbox THEN {No({})}
+  ELSE IF n \notin DOMAIN mbx THEN {Same(R0(TRUE, {}, {}))}
   ELSE {Out([R0(TRUE, {}, {}) EXCEPT !.gone = {n}],
             [x \in DOMAIN mbx \ {n} |-> mbx[x]], sub)}
 
